@@ -291,6 +291,39 @@ def gen_spec(rng, **knobs) -> dict:
     return spec
 
 
+def make_hybrid_output(rng, spec: dict) -> None:
+    """Swarm variant: one output mixes two term families under an Automatic weighted defuzzifier, and the two
+    families are concluded by rules whose antecedents have disjoint supports - so whether both families are
+    *activated* depends on the row, and on the whole batch in vectorised mode."""
+    iv = spec["inputs"][0]
+    lo, hi = fdec(iv["min"]), fdec(iv["max"])
+    w = hi - lo
+    iv["terms"] = [t for t in iv["terms"] if t["name"] not in ("y", "z")][:3] + [
+        {"cls": "Rectangle", "name": "y", "args": {"start": fenc(lo - w), "end": fenc(lo + 0.4 * w), "height": 1.0}},
+        {"cls": C(rng, ["Rectangle", "Trapezoid"]), "name": "z", "args": {"start": fenc(lo + 0.6 * w), "end": fenc(hi + w), "height": 1.0}},
+    ]
+    if iv["terms"][-1]["cls"] == "Trapezoid":
+        iv["terms"][-1]["args"] = {"bottom_left": fenc(lo + 0.6 * w), "top_left": fenc(lo + 0.7 * w), "top_right": fenc(hi + w),
+                                   "bottom_right": fenc(hi + 2 * w), "height": 1.0}
+    iv["enabled"] = True
+    o = C(rng, spec["outputs"])
+    olo, ohi = fdec(o["min"]), fdec(o["max"])
+    o["defuzzifier"] = {"cls": C(rng, WEIGHTED), "type": "Automatic"}
+    o["family"] = "hybrid"
+    o["enabled"] = True
+    second = C(rng, ["Triangle", "Ramp", "Sigmoid", "Gaussian"])
+    o["terms"] = [{"cls": "Constant", "name": "p", "args": {"value": fenc(olo + 0.25 * (ohi - olo))}},
+                  gen_term(rng, second, "q", olo, ohi, [], [], True)]
+    b = spec["blocks"][0]
+    b["enabled"] = True
+    b["rules"] = [
+        {"ant": {"var": iv["name"], "hedges": [], "term": "y"}, "con": [{"var": o["name"], "hedges": [], "term": "p"}], "weight": None, "enabled": True},
+        {"ant": {"var": iv["name"], "hedges": [], "term": "z"}, "con": [{"var": o["name"], "hedges": [], "term": "q"}], "weight": None, "enabled": True},
+    ]
+    spec["blocks"] = [b]
+    spec["flags"]["hybrid_output"] = True
+
+
 def fn_reads_output(spec: dict) -> bool:
     outs = {o["name"] for o in spec["outputs"]}
     for v in spec["inputs"] + spec["outputs"]:
